@@ -2,7 +2,7 @@
    ExtrOcamlBasic only; Z / positive / nat / N stay inductive.  No Extract
    Constant of our own. *)
 From Coq Require Import Extraction ExtrOcamlBasic.
-From Verif Require Import Base.GoPrim Model.IoUtil Model.Containers Model.SubnetSet Model.Cache Model.UrlRedact Model.Addr Std.Netip Model.Ip Std.Net Model.Reversed Model.Hosts Std.Bufio Model.Storage Model.AddrConv.
+From Verif Require Import Base.GoPrim Model.IoUtil Model.Containers Model.SubnetSet Model.Cache Model.UrlRedact Model.Addr Std.Netip Model.Ip Std.Net Model.Reversed Model.Hosts Std.Bufio Model.Storage Model.AddrConv Std.Utf8 Model.StringUtil.
 
 Extraction Language OCaml.
 Extraction "model.ml"
@@ -18,4 +18,5 @@ Extraction "model.ml"
   ip_from_reversed_addr ip_to_reversed_addr prefix_from_reversed_addr extract_reversed_addr
   unmarshal_text marshal_text tokens
   parse_run scan_all storage_run by_addr by_name range_names range_addrs storage_equal
-  ip_to_addr ip_to_addr_nomapped ipnet_to_prefix ipnet_to_prefix_nomapped ipnet_contains prefix_contains net_addr_to_addr_port sort_prefer prefer prefer_lt.
+  ip_to_addr ip_to_addr_nomapped ipnet_to_prefix ipnet_to_prefix_nomapped ipnet_contains prefix_contains net_addr_to_addr_port sort_prefer prefer prefer_lt
+  decode runes_of contains_fold equal_fold split_trimmed.
